@@ -35,8 +35,8 @@ ANCHORS = {
 SHAPES = [[2, 3], [4, 5], [6, 7], [8, 9]]
 
 
-class Injected(RuntimeError):
-    pass
+class Injected(Exception):
+    """'throws' in the property is any Exception: not only the arithmetic / runtime families"""
 
 
 def gen_cases(tier, seed):
@@ -80,7 +80,7 @@ class FaultWrapper:
         action = self.plan.get(slot, "ok")
         if action.startswith("raise"):
             self.calls.append((slot, action, None))
-            exc = {"raise": Injected, "raise_arith": ArithmeticError, "raise_value": ValueError, "raise_lin": torch.linalg.LinAlgError if hasattr(torch.linalg, "LinAlgError") else RuntimeError}[action]
+            exc = {"raise": Injected, "raise_arith": ArithmeticError, "raise_value": ValueError, "raise_lin": torch.linalg.LinAlgError if hasattr(torch.linalg, "LinAlgError") else RuntimeError, "raise_mem": MemoryError, "raise_assert": AssertionError, "raise_key": KeyError}[action]
             raise exc(f"injected failure for slot {slot}")
         out = self.orig(*args, **kwargs)
         if action in ("nan", "inf"):
@@ -296,7 +296,7 @@ def run_case(case):
             for j in range(nb):
                 for f in range(2):
                     if rnd.random() < (pfail if not burst else (0.9 if (t // 3) % 2 else 0.05)):
-                        pl_[(j, f)] = rnd.choice(["raise", "raise", "raise_arith", "raise_value", "raise_lin"])
+                        pl_[(j, f)] = rnd.choice(["raise", "raise", "raise_arith", "raise_value", "raise_lin", "raise_mem", "raise_assert", "raise_key"])
             plans[t] = pl_
         group_N = None
         if nb >= 2 and rnd.random() < 0.3:
